@@ -35,7 +35,9 @@ info('C14',
      'time-dependent drivers (TimeDependentTEBD/ExpMPO/TwoSiteTDVP/SingleSiteTDVP), plus SingleSiteTDVPEngine and QRBasedTEBDEngine, verified from the real source, with the leaf updates '
      '(evolve_step, sweep, prepare_evolve) abstract and a ghost accumulator `performed`: '
      'trunc_err.eps == old + performed and evolved_time == old + N_steps*dt for every N_steps; a static frame obligation '
-     '(AST scan) shows no other function assigns self.trunc_err/self.evolved_time. TruncationError.__add__/copy/from_norm. '
+     '(AST scan) shows no other function assigns self.trunc_err/self.evolved_time. TruncationError.__add__/copy/from_norm. 
+     '(3) reinit_model of TimeDependentHAlgorithm and of the two time-dependent TDVP drivers: the model is H(evolved_time) afterwards, cached '
+     'propagators are invalidated, TDVP environments are rebuilt with the current model. '
      'B (bounded, not proof): engines against exact diagonalisation on 6 sites (order of convergence, charge, norm, energy, '
      'evolved_time for split runs, trunc_err accounting with real truncations); imaginary steps of the ExpMPO engines against exp(-tau H); '
      'the four TimeDependent* drivers on H(t) against the time-ordered exponential (documented first order in dt, model rebuilt at evolved_time).',
